@@ -399,7 +399,7 @@ pub fn pick_n(rng: &mut Rng, thorough: bool) -> usize {
         8 => rng.urange(800, 4000),
         _ => {
             if thorough && rng.chance(1, 6) {
-                rng.urange(8000, 25000)
+                rng.urange(8000, 16000)
             } else {
                 rng.urange(0, 40)
             }
